@@ -245,6 +245,21 @@ def obligations(tier, seed):
                 if tier != "quick":
                     obs.append(Ob("search %s on %s n=%d default-range" % (pat, kind, n), ob_search,
                                   dict(pattern=pat, kind=kind, n=n, window=False), samples=4, cost=n * n))
+    # the structure patterns of the kit classes themselves (read from /repo at run time), on circular records
+    from .c04 import class_params
+
+    kp = [(params, pat, F) for params, pat, F in class_params("thorough", seed) if params["src"] == "kit"]
+    if tier == "quick":
+        kp = [x for x in kp if x[0]["cls"] in ("YTKPart234r", "YTKProduct", "CIDAREntryVector")]
+    seen = set()
+    for params, pat, F in kp:
+        if pat in seen:
+            continue
+        seen.add(pat)
+        for n in ([F + 1] if tier == "quick" else [F, F + 2]):
+            obs.append(Ob("search kit pattern of %s.%s on circ n=%d default-range" % (params["kit"], params["cls"], n),
+                          ob_search, dict(pattern=pat, kind="circ", n=n, window=False), samples=4, cost=n * n * 2,
+                          group="kit pattern %s" % pat))
     gmax = tier_pick(tier, 10, 16)
     for kind in ("seq", "rec", "circ"):
         for n in range(1, gmax + 1):
